@@ -63,6 +63,11 @@ type Case struct {
 	Transport string     `json:"transport"` // clean, drop-op, abort, flip-byte
 	TransK    int        `json:"transport_k"`
 	Interrupt bool       `json:"interrupted_earlier_stage"`
+	// Prestaged: "" | "same-endpoint" | "new-endpoint": an earlier staging of
+	// the same request was completed (clean transfer) and never followed by a
+	// transition; for "new-endpoint" the endpoint was then shut down and a new
+	// endpoint of the same session created (daemon or agent restart).
+	Prestaged string `json:"prestaged,omitempty"`
 	Double    string     `json:"double_call"` // "", stage, transition, stage-before-scan
 	NewDirs   int        `json:"new_dirs"`    // directories / links the plan creates (no staging needed)
 }
@@ -158,7 +163,7 @@ func judge(c *Case, dir string) (v verdict) {
 		v.c41 = fmt.Sprintf("cannot create endpoint: %v", err)
 		return
 	}
-	defer ep.Shutdown()
+	defer func() { ep.Shutdown() }()
 	ctx := context.Background()
 
 	if c.Double == "stage-before-scan" {
@@ -294,6 +299,25 @@ func judge(c *Case, dir string) (v verdict) {
 		rsync.DecodeToReceiver(&listDecoder{list: list}, uint64(len(filtered)), receiver)
 	}
 
+	// Optionally: an earlier, complete staging of the same request that was
+	// never followed by a transition.
+	if c.Prestaged != "" && !c.Interrupt {
+		if f, s, r, err := ep.Stage(append([]string{}, paths...), digests); err == nil && len(f) > 0 {
+			transfer(f, s, r, "clean", 0)
+			v.classes = append(v.classes, "prestaged/"+c.Prestaged)
+		}
+		if c.Prestaged == "new-endpoint" {
+			ep.Shutdown()
+			ep, err = local.NewEndpoint(logging.NewLogger(logging.LevelDisabled, os.Stderr), root, id, synchronization.Version_Version1, cfg, false)
+			if err != nil {
+				v.c41 = fmt.Sprintf("cannot create a second endpoint for the same session: %v", err)
+				return
+			}
+		}
+		if _, err, _ := ep.Scan(ctx, nil, true); err != nil {
+			return
+		}
+	}
 	// Optionally: an earlier stage that was interrupted half way, followed
 	// by a new scan (pre-staged leftovers).
 	if c.Interrupt {
@@ -368,7 +392,21 @@ func judge(c *Case, dir string) (v verdict) {
 	// A path that is not requested must have its content available: nothing
 	// was staged before (no interrupted earlier stage), so a file with that
 	// digest must exist in the root as it is now.
-	if !c.Interrupt {
+	if c.Prestaged != "" && !c.Interrupt && !overLimit {
+		// Content that was completely staged before must not be requested.
+		for _, p := range request {
+			w := wantAt[p]
+			if w == nil || w.Source != "good" || (c.MaxStage && len(contentFor(w.Content)) > stagingLimit) {
+				continue
+			}
+			v.nt41 = true
+			if inFiltered[p] {
+				v.c41 = fmt.Sprintf("staging requests %q again although its content was completely staged by an earlier staging of the same request (%s) and no transition happened since", p, c.Prestaged)
+				return
+			}
+		}
+	}
+	if !c.Interrupt && c.Prestaged == "" {
 		inRoot := map[string]bool{}
 		var collect func(n *disk.Node)
 		collect = func(n *disk.Node) {
@@ -624,6 +662,9 @@ func drawCase(rt *rapid.T) *Case {
 	c.Transport = rapid.SampledFrom([]string{"clean", "clean", "drop-op", "abort", "flip-byte"}).Draw(rt, "transport")
 	c.TransK = rapid.IntRange(0, 40).Draw(rt, "transport.k")
 	c.Interrupt = rapid.IntRange(0, 4).Draw(rt, "interrupt") == 0
+	if !c.Interrupt && rapid.IntRange(0, 3).Draw(rt, "prestaged") == 0 {
+		c.Prestaged = rapid.SampledFrom([]string{"same-endpoint", "new-endpoint", "new-endpoint"}).Draw(rt, "prestaged.kind")
+	}
 	if rapid.IntRange(0, 2).Draw(rt, "newdirs") == 0 {
 		c.NewDirs = rapid.IntRange(1, 5).Draw(rt, "newdirs.n")
 	}
@@ -637,7 +678,7 @@ func sample(c *Case) map[string]any {
 		wants = append(wants, fmt.Sprintf("%s<=content%d(%s)", w.Path, w.Content, w.Source))
 	}
 	return map[string]any{"tree": c.Root.Render(false), "wants": wants, "deletes": c.Deletes, "copies_in_root": c.Copies, "copies_modified_after_scan": c.Touched,
-		"sha256": c.SHA256, "limit_delta": c.MaxEntry, "small_max_staging_size": c.MaxStage, "transport": c.Transport, "k": c.TransK, "interrupted_earlier_stage": c.Interrupt, "double_call": c.Double, "new_dirs_or_links": c.NewDirs}
+		"sha256": c.SHA256, "limit_delta": c.MaxEntry, "small_max_staging_size": c.MaxStage, "transport": c.Transport, "k": c.TransK, "interrupted_earlier_stage": c.Interrupt, "prestaged": c.Prestaged, "double_call": c.Double, "new_dirs_or_links": c.NewDirs}
 }
 
 var rules = map[string]string{
